@@ -70,7 +70,7 @@ def e2_specs(tier):
     singles = [(("exits", "kills"),), (("hangs", "kills"),), (("hangs", "kill_hangs"),), (("stuck", "kills"),)]
     doubles = [(("exits", "kills"), ("hangs", "kills")), (("hangs", "kill_hangs"), ("exits", "kills"))] if thorough else []
     return [{"module": "props.c05", "factory": "sc_safe_terminate", "args": {"pairs": p, "timeout": 1}, "K": 0, "name": f"safe_terminate{list(p)}",
-             "timeout": 6000 if thorough else 900, "validate": 2, "depth_probes": 200, "sync_granularity": True} for p in singles + doubles]
+             "timeout": 6000 if thorough else 900, "validate": 2, "depth_probes": 200, "sync_granularity": not thorough} for p in singles + doubles]
 
 
 def signature(o, cex, detail):
